@@ -65,7 +65,7 @@ func c03StartTrees() []harness.Tree {
 	return []harness.Tree{
 		{"/": {Dir: true}},
 		{"/": {Dir: true}, "/a": {Dir: true}, "/a/f": {Content: "inside-af"}, "/g": {Content: "inside-g"}, "/%2e%2e": {Content: "inside-enc-dots"}, "/a%2fb": {Content: "inside-enc-slash"},
-			"/a.": {Content: "inside-a-dot"}, "/g.": {Dir: true}, "/g./..x": {Content: "inside-dotdot-x"}},
+			"/a.": {Content: "inside-a-dot"}, "/g.": {Dir: true}, "/g./..x": {Content: "inside-dotdot-x"}, "/..a": {Content: "inside-dotdot-a"}},
 		nil, // built by a real MKCOL+PUT+MOVE history
 	}
 }
@@ -341,7 +341,7 @@ func c03Requests(s string) []c03Req {
 	add("COPY", map[string]string{"Destination": "/dst-copy"}, "")
 	add("MOVE", map[string]string{"Destination": "/dst-move"}, "")
 	for _, m := range []string{"COPY", "MOVE"} {
-		for _, src := range []string{"/g", "/a"} {
+		for _, src := range []string{"/g", "/a", "/..a"} {
 			for _, ow := range []string{"T", "F"} {
 				for _, pre := range []string{"", "http://h", "//h"} {
 					if pre != "" && !strings.HasPrefix(s, "/") {
